@@ -12,7 +12,8 @@ from props.packets import norm, show
 
 EXPLANATION = (
     "Structure rules over the #[binrw] declarations of insim_pth and insim_smx: read/write directive symmetry per field, "
-    "br(count = n) paired with bw(calc = <same vec>.len() as i32), 6-byte magic and little-endian on both sides of the file "
+    "br(count = n) paired with bw(calc = <same vec>.len() as i32), every calculated count declared as the format's i32 with no "
+    "padding behind it (roots and nested records), 6-byte magic and little-endian on both sides of the file "
     "roots, absence of lenient directives (try, default, if, restore_position, until_eof), and a MIR inventory of the parse "
     "entry points (error propagated, no workspace allocation sized by a wire value, no panic site). Not decided: byte-identical "
     "rewrite of a canonical file, binrw's own allocation policy for counted vectors."
